@@ -102,6 +102,10 @@ mutant('m20_kwargs_dropped_from_key', 'C20', C,
        "        @functools.lru_cache(maxsize, typed)\n        def _func(_self, *args, **kwargs):\n            return func(_self(), *args, **kwargs)\n\n        @functools.wraps(func)\n        def inner(self, *args, **kwargs):\n            return _func(weakref.ref(self), *args, **kwargs)",
        "        pending = {}\n\n        @functools.lru_cache(maxsize, typed)\n        def _func(_self, *args):\n            return func(_self(), *args, **pending['kw'])\n\n        @functools.wraps(func)\n        def inner(self, *args, **kwargs):\n            pending['kw'] = kwargs\n            return _func(weakref.ref(self), *args)", 'C20/',
        'keyword arguments are not part of the key')
+mutant('n20_weakkeydict', 'C20', C,
+       "        @functools.lru_cache(maxsize, typed)\n        def _func(_self, *args, **kwargs):\n            return func(_self(), *args, **kwargs)\n\n        @functools.wraps(func)\n        def inner(self, *args, **kwargs):\n            return _func(weakref.ref(self), *args, **kwargs)",
+       "        caches = weakref.WeakKeyDictionary()\n\n        @functools.wraps(func)\n        def inner(self, *args, **kwargs):\n            store = caches.setdefault(self, {})\n            key = (args, tuple(sorted(kwargs.items())))\n            if key not in store:\n                store[key] = func(self, *args, **kwargs)\n            return store[key]", None,
+       'NEGATIVE CONTROL: a correct per-object cache in a WeakKeyDictionary must stay silent')
 mutant('n20_maxsize_8', 'C20', C, "def weak_lru_cache(maxsize=128, typed=False):", "def weak_lru_cache(maxsize=8, typed=True):", None, 'NEGATIVE CONTROL: smaller typed cache must stay silent')
 
 
